@@ -45,6 +45,13 @@ def prepare(unit, target_rel, extra_units=()):
             conds = [f['kani_region'] for f in load_findings()
                      if f.get('status') == 'open' and f.get('carveout_key') == key and f.get('kani_region')]
             return ''.join(f'kani::assume(!({c}));' for c in conds)
+        def carve_all(m):
+            key, vars_ = m.group(1), m.group(2).split()
+            conds = [f['kani_region'] for f in load_findings()
+                     if f.get('status') == 'open' and f.get('carveout_key') == key and f.get('kani_region')]
+            pat = re.compile(r'\bd\.')
+            return ''.join('kani::assume(!(' + pat.sub(v + '.', c) + '));' for c in conds for v in vars_)
+        src = re.sub(r'//@KNOWN-FINDING-CARVEOUT-ALL (\S+)([^\n]*)', carve_all, src)
         src = re.sub(r'//@KNOWN-FINDING-CARVEOUT (\S+)', carve, src)
         with open(os.path.join(dst, rel), 'a') as fh:
             fh.write(f'\n#[cfg(kani)]\nmod verif_{u} {{\n{src}\n}}\n')
@@ -135,10 +142,10 @@ def run(unit, target_rel, harnesses, jobs=8, timeout=3600, extra_args=(), extra_
     return info
 
 
-def playback(unit, target_rel, harness, replay_path, timeout=1800):
+def playback(unit, target_rel, harness, replay_path, timeout=1800, extra_units=()):
     """Get Kani's concrete counterexample for a failing harness as a unit test, splice it into the harness
     module of a fresh scratch copy and execute it natively.  Returns dict(test_src, ran, failed_natively, log)."""
-    root = prepare(unit, target_rel)
+    root = prepare(unit, target_rel, extra_units)
     repo = os.path.join(root, 'repo')
     out = {'test_src': None, 'ran': False, 'failed_natively': None, 'log': ''}
     try:
@@ -157,10 +164,18 @@ def playback(unit, target_rel, harness, replay_path, timeout=1800):
         m = re.search(r'fn (kani_concrete_playback_\w+)', test_src)
         tname = m.group(1)
         # splice into the harness module (before its closing brace = end of file)
-        f = os.path.join(repo, target_rel)
-        s = open(f).read().rstrip()
-        assert s.endswith('}')
-        s = s[:-1] + '\n' + test_src + '\n}\n'
+        # splice into the appended module that defines the harness (so that `super::*` resolves as in the harness)
+        owner, owner_rel = unit, target_rel
+        for (u, rel) in [(unit, target_rel), *extra_units]:
+            if re.search(r'\bfn\s+' + re.escape(harness) + r'\b', open(os.path.join(VERIF, 'kani', u + '.rs')).read()):
+                owner, owner_rel = u, rel
+        f = os.path.join(repo, owner_rel)
+        s = open(f).read()
+        marker = f'mod verif_{owner} {{'
+        pos = s.index(marker)
+        from rustsrc import mask, match_brace
+        close = match_brace(mask(s), pos + len(marker) - 1)
+        s = s[:close] + '\n' + test_src + '\n' + s[close:]
         open(f, 'w').write(s)
         cmd2 = ['cargo', 'kani', 'playback', '-p', 'quizx', '-Z', 'concrete-playback', '--', tname]
         p2 = subprocess.run(cmd2, cwd=repo, env=kani_env(), capture_output=True, text=True, timeout=timeout)
